@@ -120,6 +120,10 @@ static std::string kern(const Args& a) {
     PROG2("add_x_maxall",     view::add(x0, MAXALL(x1)))
     PROG1("sub_sumall_x_rep", view::subtract(SUMALL(x0), x0))      // repeated leaf
     PROG1("sub_x_sumall_rep", view::subtract(x0, SUMALL(x0)))
+    // a number LITERAL operand in either position (held by value in the extracted operand tuple, passed to the kernel as it is)
+    PROG1("add_x_lit",        view::add(x0, (int)integer(a,"lit")))
+    PROG1("mul_lit_x",        view::multiply((int)integer(a,"lit"), x0))
+    PROG2("neg_add_mul_x_lit_x", view::negative(view::add(view::multiply(x0, (int)integer(a,"lit")), x1)))
 #elif C13_GROUP == 11
     PROG3("neg_mul_sumall_mul_x", view::negative(view::multiply(SUMALL(view::multiply(x0, x1)), x2)))
     PROG3("add_mul_sumall_x_x",   view::add(view::multiply(SUMALL(x0), x1), x2))
